@@ -24,10 +24,10 @@ EXEC_PKGS = _c09.EXEC_PKGS
 EXTRA_ENTRIES = _c09.EXTRA_ENTRIES
 S = "example.com/scion-time/core/server."
 SRVCFG = dict(_c09.LISTENER_CFG, rand_distinct=True, time_mode="ns64", aead_bound=1100, copy_bound=160)
-for nph, th in [(0, False), (2, False)]:
-    HARNESSES.append({"name": "server%d" % nph, "fn": S + "VerifC11Server%d" % nph, "cfg": SRVCFG, "install": _c09.LISTENER_INSTALL, "replay_overlay": _c09.RO, "synctest_off": True,
+for nph, th in [(0, False), (2, False), ("1R", False)]:
+    HARNESSES.append({"name": "server%s" % nph, "fn": S + "VerifC11Server%s" % nph, "cfg": SRVCFG, "install": _c09.LISTENER_INSTALL, "replay_overlay": _c09.RO, "synctest_off": True,
                       "native_feasible": _c09.native_feasible, "thorough_only": th,
-                      "bounds": "the real IP listener answering one authenticated request with 1 cookie and %d placeholders (124-byte cookies from the real server code)" % nph})
+                      "bounds": "the real IP listener answering one authenticated request with 1 cookie and %s placeholders (124-byte cookies from the real server code)%s" % (str(nph).rstrip("R"), "; the server key rotates between issue and use of the cookie" if str(nph).endswith("R") else "")})
 ASSUMPTIONS = ["independently drawn nonces do not collide (assumed for the pairwise-different clause)", "ideal AEAD", "the server branch that builds the reply (runIPServer) is represented by the same calls it makes: EncryptWithNonce/Encode per requested cookie, NewResponsePacket, EncodePacket"]
 EXPLANATION = ""
 CLAIMED = True
